@@ -1,4 +1,5 @@
 #!/bin/bash
+VDIR="$(dirname "$(dirname "$(realpath "$0")")")"
 # matrix.sh <outfile> <patch>...  : runs every patch against all five quick checks (reduced budgets)
 # in a private scratch worktree of /repo (so /repo itself is not touched) and writes a table.
 out="$1"; shift
@@ -13,7 +14,7 @@ for p in "$@"; do
   if ! git -C "$wt" apply "$(realpath $p)"; then echo "| $name | patch does not apply |" >> "$out"; continue; fi
   row="| $name"
   for prop in C04 C07 C10 C11 C19; do
-    o=$(cd /verif && ./run.sh $prop quick 2>&1); rc=$?
+    o=$(cd "$VDIR" && ./run.sh $prop quick 2>&1); rc=$?
     kind=$(echo "$o" | grep -A1 "^VIOLATION" | sed -n 2p | awk '{print $1}')
     case $rc in 0) cell="-";; 1) cell="**$kind**";; *) cell="rc=$rc";; esac
     row="$row | $cell"
